@@ -93,6 +93,55 @@ def tu_text(hs, facts):
     return '\n'.join(out) + '\n'
 
 
+def covering_orders(hs, seed=1722, extra=0):
+    """a small set of permutations of hs such that every ordered triple (a before b before c) of distinct headers
+    occurs in at least one of them (greedy sequence-covering array, deterministic)"""
+    import random, itertools
+    rnd = random.Random(seed)
+    n = len(hs)
+    idx = list(range(n))
+    uncovered = set(itertools.permutations(idx, 3))
+    perms = []
+    while uncovered:
+        best, bestc = None, -1
+        for _ in range(40):
+            p = idx[:]
+            rnd.shuffle(p)
+            pos = {h: i for i, h in enumerate(p)}
+            c = sum(1 for (a, b2, c3) in uncovered if pos[a] < pos[b2] < pos[c3]) if len(uncovered) < 4000 else \
+                sum(1 for (a, b2, c3) in itertools.islice(uncovered, 4000) if pos[a] < pos[b2] < pos[c3])
+            if c > bestc:
+                best, bestc = p, c
+        pos = {h: i for i, h in enumerate(best)}
+        uncovered = {t for t in uncovered if not (pos[t[0]] < pos[t[1]] < pos[t[2]])}
+        perms.append(tuple(hs[i] for i in best))
+    for _ in range(extra):
+        p = idx[:]
+        rnd.shuffle(p)
+        perms.append(tuple(hs[i] for i in p))
+    return perms
+
+
+def shrink(cfg, langs, inc, facts):
+    """a minimal sub-order of cfg that still fails in one of the given languages (one header removed at a time)"""
+    cur = list(cfg)
+    changed = True
+    while changed and len(cur) > 1:
+        changed = False
+        for h in list(cur):
+            trial = [x for x in cur if x != h]
+            fails = False
+            for lang, cmd in LANGS:
+                if lang in langs:
+                    pp = subprocess.run(cmd + ['-fsyntax-only', '-w', '-I' + inc, '-'], input=tu_text(trial, facts), stdout=subprocess.PIPE, stderr=subprocess.PIPE, text=True)
+                    fails = fails or pp.returncode != 0
+            if fails:
+                cur = trial
+                changed = True
+                break
+    return cur
+
+
 def run(prop, tier):
     t0 = time.time()
     b = core.fresh_dir(os.path.join(core.ROOT, 'build', 'C20'))
@@ -116,9 +165,12 @@ def run(prop, tier):
     configs = [('single', (h,)) for h in hs]
     configs += [('pair', (a, c)) for a in hs for c in hs if a != c]
     full = [('set', tuple(hs)), ('set', tuple(reversed(hs)))]
-    nrot = len(hs) if tier == 'thorough' else 24
+    nrot = len(hs) if tier == 'thorough' else 6
     for r in range(1, nrot + 1):
         full.append(('set', tuple(hs[r % len(hs):] + hs[:r % len(hs)])))
+    # every ordered triple of headers occurs, in that relative order, in one of these permutations of the full set
+    cov = covering_orders(hs, extra=200 if tier == 'thorough' else 0)
+    full += [('set', p) for p in cov]
     if tier == 'thorough':
         # every subset of size 3 containing a fixed "hub" of frequently bridged headers, in two orders
         hub = [h for h in hs if os.path.basename(h) in ('Tscf.h', 'Ntscf.h', 'Can.h', 'CommonHeader.h')]
@@ -186,7 +238,8 @@ def run(prop, tier):
                 masked += 1
                 reduced.append((kind, cfg))
                 continue
-            base = '%s:%s' % (kind, '+'.join(cfg))
+            cur = shrink(cfg, langs, inc, facts)
+            base = 'order:%s' % '<'.join(cur)
         # one violation per distinct failing name, so that a new clash in an already listed pair is still new
         allitems = {}
         for l, items in langs.items():
@@ -199,6 +252,7 @@ def run(prop, tier):
     # a set that contains a failing pair is explored again without the later header of each failing pair,
     # so that a listed pairwise conflict does not hide the rest of the set
     rjobs = []
+    rfailed = {}
     for kind, cfg in reduced:
         drop = {c for (a, c) in pair_fail if a in cfg and c in cfg and cfg.index(a) < cfg.index(c)} | {h for h in cfg if h in single_fail}
         for d in sorted(drop) or [None]:
@@ -217,12 +271,16 @@ def run(prop, tier):
             res.counters['transitions'] += 1
             if rc != 0:
                 first = [l for l in err.splitlines() if 'error' in l][:1]
-                key = '%s:%s' % (j[1], '+'.join(j[2]))
-                res.viol[('C20', key)] = {'count': 1, 'case': key, 'detail': '%s: %s' % (j[3], first[0] if first else err[:200]), 'tag': ''}
+                rfailed.setdefault(j[2], {})[j[3]] = first[0] if first else err[:200]
     res.counters['states'] += len(rjobs) // 2
+    for cfg, langs in rfailed.items():
+        cur = shrink(cfg, langs, inc, facts)
+        key = 'order:%s' % '<'.join(cur)
+        e = res.viol.setdefault(('C20', key), {'count': 0, 'case': key, 'detail': '; '.join('%s: %s' % kv for kv in sorted(langs.items())), 'tag': ''})
+        e['count'] += 1
     samples = ['pair avtp/aaf/Aaf.h then avtp/aaf/Pcm.h in C99 and C++ with one static assertion per public name of both headers (value when included alone)',
                'full set of %d headers rotated by 7, C++' % len(hs)]
-    core.finish('C20', tier, t0, res, rule='configurations = each header alone, all %d ordered pairs, full set in %d orders (thorough: + triples through hub headers) x {gcc -std=gnu99, g++}; each TU includes the headers and asserts every public integer name (%d facts: macros, enumerators, sizeof) against its value when the header is included alone; a set/triple failure explained by a failing ordered pair inside it is attributed to the pair' % (len(hs) * (len(hs) - 1), len(full) if tier != 'thorough' else nrot + 2, nfacts),
+    core.finish('C20', tier, t0, res, rule='configurations = each header alone, all %d ordered pairs, full set in %d orders - sorted, reversed, rotations and a sequence-covering set of permutations in which every ordered triple of headers occurs in that relative order (thorough: + 200 further permutations and explicit triples through hub headers) x {gcc -std=gnu99, g++}; each TU includes the headers and asserts every public integer name (%d facts: macros, enumerators, sizeof) against its value when the header is included alone; a set/triple failure explained by a failing ordered pair inside it is attributed to the pair' % (len(hs) * (len(hs) - 1), len(full) if tier != 'thorough' else nrot + 2, nfacts),
                 bounds={'headers': len(hs), 'configurations': len(configs), 'languages': 2, 'facts': nfacts, 'masked_by_pair': masked},
                 assumptions=['GNU C as the project uses it (zero-length arrays accepted); -pedantic diagnostics are not violations', 'pairwise conflicts plus the sampled larger sets; a conflict needing three specific headers outside the enumerated sets is not seen in quick'],
                 recipe={'engine': 'c20'}, samples=samples, extra_cov={'compilations': len(jobs), 'planted_bug_selftest': 'a deliberately wrong value for %s %s made its translation unit fail, as required' % k0})
@@ -233,7 +291,7 @@ def replay(prop, case):
     b = os.path.join(core.ROOT, 'build', 'C20r')
     os.makedirs(b, exist_ok=True)
     kind, rest = case.split(':', 1)
-    cfg = rest.split('+')
+    cfg = rest.split('<') if kind == 'order' else rest.split('+')
     facts = {}
     for h in cfg:
         macros, enums, types = names_of(inc, h)
